@@ -275,6 +275,7 @@ def class_scope_problems(code: str | ast.Module) -> list[dict]:
     def analyse(cls: ast.ClassDef, qual: str, top: ast.stmt, before: set[str]) -> None:
         local: dict[str, str] = {}  # bound so far in the class namespace → kind of the binding statement
         kept_dc: dict[str, bool] = {}  # … and whether @dataclass leaves it in the class
+        str_valued: dict[str, bool] = {}  # … and whether its value is a string literal (typing takes it for a forward reference)
         deferred: list[tuple[str, ast.AST]] = []
         simple = qual.split(".")[-1]
 
@@ -294,6 +295,7 @@ def class_scope_problems(code: str | ast.Module) -> list[dict]:
 
         def bind(name: str, kind: str, value: ast.AST | None = None) -> None:
             local[name] = kind
+            str_valued[name] = isinstance(value, ast.Constant) and isinstance(value.value, str)
             kept = True
             if isinstance(value, ast.Call) and isinstance(value.func, ast.Name) and value.func.id == "field":
                 kept = any(k.arg == "default" for k in value.keywords)
@@ -335,7 +337,8 @@ def class_scope_problems(code: str | ast.Module) -> list[dict]:
             eff_dc = simulate(ann, hidden_dc, lambda n: True)
             for n in names:
                 problem(n, "class_creation", "annotation", m,
-                        effect_v2=eff_v2 if n in hidden_v2 else "ok", effect_dc=eff_dc if n in hidden_dc else "ok")
+                        effect_v2=eff_v2 if n in hidden_v2 else "ok", effect_dc=eff_dc if n in hidden_dc else "ok",
+                        str_hider=any(str_valued.get(x) for x in names))
         for b in cls.body:  # a nested class body has its own namespace (the enclosing one is not visible)
             if isinstance(b, ast.ClassDef):
                 analyse(b, qual + "." + b.name, top, before)
@@ -372,7 +375,10 @@ def applicable(problems: list[dict], kind: str) -> list[dict]:
         eff = p[field]
         if eff in ("ok", "name_error"):
             continue
-        out.append(dict(p, observed_at=at, effect=eff, certain=eff in ("exception", "passed_on")))
+        # a string handed to a typing construct becomes a forward reference: pydantic v2 cannot resolve it at class
+        # creation (NameError), defers the member and re-evaluates the annotation later without the hiding value
+        uncertain_str = eff == "passed_on" and kind == "pydantic_v2.BaseModel" and p.get("str_hider", False)
+        out.append(dict(p, observed_at=at, effect=eff, certain=eff in ("exception", "passed_on") and not uncertain_str))
     return out
 
 
@@ -415,6 +421,8 @@ TRIAGE: list[tuple[str, str, str, str]] = [
      "allOf over a definition that is an enum: the derived class inherits from an Enum that has members (the input is unsatisfiable as an object schema; not name binding)"),
     (r"^PydanticUserError: `RootModel` does not support setting `model_config\['extra'\]`", "other_property", "C14 (representation-only options) / C03 (module not importable)",
      "--allow-extra-fields writes model_config = ConfigDict(extra='allow') into a RootModel class, which pydantic v2 refuses when the class is created (option handling, not name binding)"),
+    (r"^RuntimeError: no validator found for <class 'collections\.abc\.", "other_property", "C14 (representation-only options) / C13",
+     "--use-generic-container-types with --use-standard-collections writes collections.abc.Sequence/Mapping/Set, which pydantic v1 (here: pydantic.v1 on Python 3.12) cannot validate (spelling option, not name binding)"),
     (r"^ValueError: On field \".*\" the following field constraints are set but not enforced", "other_property", "C04 / C14 (known finding: unenforced_field_constraints)",
      "pydantic v1 refuses a constraint the annotated type cannot enforce (constraint routing, not name binding)"),
 ]
